@@ -13,7 +13,7 @@ Error paths are mirrored with `Except Err` (numpy `IndexError`, `ValueError` of 
 -/
 namespace SnaxVerif.Sched
 
-inductive Err | indexError | valueError | zeroDivision | assertion | outOfFuel
+inductive Err | indexError | valueError | zeroDivision | assertion | outOfFuel | certificate
 deriving DecidableEq, Repr
 
 /-- one operand: `A` by rows and `b`; `rows.length = b.length`, every row has one entry per dimension -/
@@ -104,6 +104,14 @@ def maskSched (mask : List Bool) (s : Schedule) : Schedule :=
 /-- `PatternCollection.clear_unused_dims()` (default bounds): drop the dimensions with bound `== 1` -/
 def clearUnused (s : Schedule) : Schedule := maskSched (s.bounds.map (· != 1)) s
 
+/-- `PatternCollection.clear_unused_dims(bounds)` with CUSTOM bounds: the custom bounds replace the schedule's,
+then dims with custom bound `== 1` are dropped.  numpy raises `IndexError` when a kept index lies beyond the
+matrix, `SchedulePattern.__init__` raises `ValueError` for a kept bound `0`. -/
+def clearUnusedWith (c : List Nat) (s : Schedule) : Except Err Schedule :=
+  if (c.drop s.n).any (· != 1) then .error .indexError
+  else if c.any (· == 0) then .error .valueError
+  else .ok (maskSched (c.map (· != 1)) { s with bounds := c })
+
 /-- `PatternCollection.canonicalize()`: drop the dimensions with bound `== 1` (since the repair of
 `AccessPattern.canonicalize` in /repo a bound `<= 0`, an empty space, is kept) -/
 def canonicalize (s : Schedule) : Schedule := maskSched (s.bounds.map (· != 1)) s
@@ -178,15 +186,58 @@ def inSpanB (P : List Vec) (v : Vec) : Bool :=
   | some (c, w) => c != 0 && vscale c v == comb v.length w P
   | none => false
 
+def vdot : Vec → Vec → Int
+  | a :: as, b :: bs => a * b + vdot as bs
+  | _, _ => 0
+
+/-- `y` certifies that `v` is NOT in the rational row space of `P`: `y` is orthogonal to every row of `P`
+but not to `v` (all of one length) -/
+def nonMemberB (P : List Vec) (v y : Vec) : Bool :=
+  y.length == v.length && P.all (·.length == v.length) && P.all (fun p => vdot p y == 0) && vdot v y != 0
+
+/-- candidate kernel vector (unchecked): the residual of `v` has a leading column `f` outside the pivot
+columns; back-substitute through the echelon basis, scaling instead of dividing -/
+def kernelWitness (P : List Vec) (v : Vec) : Option Vec :=
+  let basis := buildBasis P
+  let st := reduceBy basis v P.length
+  match st.1.findIdx? (· != 0) with
+  | none => none
+  | some f =>
+    some (basis.reverse.foldl (fun y p => (vscale (p.v.getD p.pc 0) y).set p.pc (-(vdot p.v y)))
+      (unitVec v.length f 1))
+
+/-- CERTIFYING decision of `v ∈ rowspace(P)`: `some true` with a re-checked combination, `some false` with
+a re-checked orthogonal vector, `none` if neither certificate checks (never observed; the search is not
+verified, the answer is) -/
+def spanDecide (P : List Vec) (v : Vec) : Option Bool :=
+  if inSpanB P v then some true
+  else match kernelWitness P v with
+    | some y => if nonMemberB P v y then some false else none
+    | none => none
+
+/-- all decisions `some true` -> `some true`; some decision `some false` -> `some false`; else undecided -/
+def combineDecisions (ds : List (Option Bool)) : Option Bool :=
+  if ds.any (· == some false) then some false
+  else if ds.all (· == some true) then some true
+  else none
+
+/-- certified comparison of two row spaces -/
+def sameRowSpaceD (T P : List Vec) : Option Bool :=
+  combineDecisions (T.map (spanDecide P) ++ P.map (spanDecide T))
+
 def sameRowSpaceB (T P : List Vec) : Bool := T.all (inSpanB P) && P.all (inSpanB T)
+
+def decisionE : Option Bool → Except Err Bool
+  | some b => .ok b
+  | none => .error .certificate
 
 /-- `TemplatePattern.matches` with exact arithmetic; `tn`, `n` = number of dims of template / schedule -/
 def matchOp (tn n : Nat) (tp sp : Operand) : Except Err Bool :=
   if n > tn then
     (if tn = 0 then .error .valueError   -- sp.inner_dims(0)
-     else .ok (sameRowSpaceB (tp.rows.drop (tp.rows.length - sp.rows.length)) (sp.rows.map (lastN tn))))
+     else decisionE (sameRowSpaceD (tp.rows.drop (tp.rows.length - sp.rows.length)) (sp.rows.map (lastN tn))))
   else if n < tn then .ok false
-  else .ok (sameRowSpaceB (tp.rows.drop (tp.rows.length - sp.rows.length)) sp.rows)
+  else decisionE (sameRowSpaceD (tp.rows.drop (tp.rows.length - sp.rows.length)) sp.rows)
 
 def matchOps (tn n : Nat) : List Operand → List Operand → Except Err Bool
   | tp :: ts, sp :: ss =>
